@@ -25,8 +25,11 @@ func render(s string) string {
 	blocks, refs := cm.Parse([]byte(s))
 	var buf bytes.Buffer
 	cm.RenderHTML(&buf, blocks, refs)
-	return html.UnescapeString(buf.String())
+	// newlines next to the block tags are insignificant inter-block white space
+	return blockNL.ReplaceAllString(html.UnescapeString(buf.String()), "$1")
 }
+
+var blockNL = regexp.MustCompile(`\n*(</?(?:p|h1)>)\n*`)
 
 var thematic = regexp.MustCompile(`^([-_*])( *[-_*]){2,} *$`)
 
@@ -154,6 +157,41 @@ func enumerate(t *testing.T, plan harness.Plan, name string, alpha []string, max
 	harness.SetExhaustive(name, fmt.Sprintf("every string of length 1..%d over the %d-symbol alphabet %q (split over %d shard(s))", maxLen, k, alpha, shards))
 }
 
+// longRuns: one run of every length up to 700 in a few templates.
+func longRuns(t *testing.T, plan harness.Plan) {
+	if harness.Cfg().Shard != 0 {
+		return
+	}
+	const name = "long_runs"
+	max := 300
+	if harness.Cfg().Tier == "thorough" {
+		max = 700
+	}
+	for _, d := range []string{"*", "_"} {
+		for n := 1; n <= max; n++ {
+			run := strings.Repeat(d, n)
+			for _, s := range []string{
+				"a" + run + "b" + d + d,
+				d + d + "a" + run + "b",
+				"a " + run + "b c" + d,
+				run + "a" + run,
+				run + "a" + d,
+				d + "a" + run,
+				"a" + run + " " + d + "b" + d + d + d,
+			} {
+				h := fnv.New64a()
+				h.Write([]byte(s))
+				err := check(s)
+				harness.CountRaw(name, h.Sum64(), true, func() string { return fmt.Sprintf("template with a run of %d %q", n, d) })
+				if err != nil && harness.Fail(t, plan, name, harness.Case{In: []byte(s)}, err) {
+					return
+				}
+			}
+		}
+	}
+	harness.SetExhaustive(name, fmt.Sprintf("seven templates x both delimiters x every run length 1..%d", max))
+}
+
 func genRandom(t *rapid.T) harness.Case {
 	n := rapid.IntRange(11, 40).Draw(t, "len")
 	var sb strings.Builder
@@ -180,7 +218,13 @@ func TestProperty(t *testing.T) {
 		{Name: "exhaustive_base", Prop: propOne, Rule: "exhaustive enumeration over {* _ a SP .}; each string as a one-paragraph document when block-safe (no edge spaces, not a thematic break, not a list item) and always as ATX heading content; " + ruleNT},
 		{Name: "exhaustive_extended", Prop: propOne, Rule: "exhaustive enumeration over {* _ a SP . é NBSP “ FF}; " + ruleNT},
 	}}
+	plan.Checks = append(plan.Checks, harness.Check{Name: "long_runs", Prop: propOne,
+		Rule: "templates with one delimiter run of every length 1..700 (a{N}b**, **a{N}b, {N}a{M} ...) for both delimiters: run lengths far beyond what enumeration reaches, around 255/256 and 65535-style boundaries of narrow counters; " + ruleNT})
 	plan.After = func(t *testing.T) {
+		longRuns(t, plan)
+		if t.Failed() {
+			return
+		}
 		bl, el := 8, 5
 		if harness.Cfg().Tier == "thorough" {
 			bl, el = 10, 7
